@@ -1,10 +1,10 @@
-\* N=3, everything emitted (1138 DAGs)
+\* fact semantics: set / delete / set-if-absent (rejected in braid)
 SPECIFICATION Spec
 CONSTANTS
   MergeTag = 2
   N = 3
-  Kinds = {"b0", "b1", "fin"}
-  Ops = {"n"}
+  Kinds = {"b0", "fin"}
+  Ops = {"n", "s", "d", "x"}
   EmitEvery = 1
   EmitSalt = 0
 INVARIANTS InvAlgEqRef InvLcaWalk InvFoldWalk InvFinalize InvOnce InvDominator InvFinalizeFirst Emit
